@@ -748,7 +748,7 @@ pub fn gen_case(theme: &str, r: &mut Rng) -> Case {
 }
 
 pub fn gen_cases(rng: &mut Rng, tier: Tier) -> Vec<Case> {
-    let n = if tier == Tier::Quick { 360 } else { 3600 };
+    let n = if tier == Tier::Quick { 720 } else { 7200 };
     let clean: Vec<&str> = THEMES.iter().filter(|t| !t.1).map(|t| t.0).collect();
     let risky: Vec<&str> = THEMES.iter().filter(|t| t.1).map(|t| t.0).collect();
     let only = std::env::var("AXH_FUZZ_THEME").ok();
